@@ -30,10 +30,14 @@ impl Driver {
     pub fn ask_text(&mut self, req: &Sexp) -> String {
         let mut line = req.to_text();
         line.push('\n');
+        crate::report::beat();
+        crate::report::IN_DRIVER.store(true, std::sync::atomic::Ordering::SeqCst);
         self.stdin.write_all(line.as_bytes()).expect("driver write");
         self.stdin.flush().unwrap();
         let mut out = String::new();
         self.stdout.read_line(&mut out).expect("driver read");
+        crate::report::IN_DRIVER.store(false, std::sync::atomic::Ordering::SeqCst);
+        crate::report::beat();
         self.requests += 1;
         while out.ends_with('\n') || out.ends_with('\r') {
             out.pop();
